@@ -265,6 +265,8 @@ def io_count(ctx):
                 p = op_place(t2['discr'])
                 if p is not None and p['l'] in clo and p['p'] and p['ty'] == 'usize':
                     lit += [a[0] for a in t2['arms'] if a[0] != '0']
+                    if any(a[0] == '0' for a in t2['arms']):
+                        uses.setdefault('cmp-zero', []).append((b2, 'match arm Ok(0)'))
         bad = []
         if 'cmp-eq-nonzero' in uses:
             bad.append('compared for (in)equality with %s' % uses['cmp-eq-nonzero'][0][1])
@@ -841,3 +843,51 @@ def interrupt_latch(ctx):
                 ctx.ok(key, f.loc(bi), 'Err arm neither latches an Interrupted error nor drops bytes already copied')
     if n == 0:
         ctx.anchor_missing('impl Read::read forwarding to a plain inner read')
+
+
+@rule('INTERRUPT-RETRY', ['C05'], floor=3)
+def interrupt_retry(ctx):
+    """A decoder that reads into a buffer of its own (not the caller's buffer handed through) with a plain
+    `read` is in the middle of parsing: it cannot give ErrorKind::Interrupted back to its caller and be resumed
+    by a retry of `read` (the bytes parsed so far in this step are gone). Every such call therefore sits in
+    a retry loop: its Err edge tests for Interrupted and re-issues the call."""
+    from lzlint.core import control_conditions
+    F = ctx.facts
+    n = 0
+    cnt = {}
+    for f in F.fns:
+        if f.file.endswith('no_std.rs'):
+            continue
+        prov = None
+        for bi, t, c in f.calls():
+            if not is_trait_call(c, READ_TRAITS, 'read') or len(t['args']) < 2:
+                continue
+            prov = prov or Prov(f)
+            buf = prov.operand(t['args'][1], 0, '%d:T' % bi)
+            # pass-through of a caller's buffer parameter (any &mut [u8] parameter of f)
+            bparams = [i for i in range(1, f.arg_count + 1) if f.local_ty(i).replace(' ', '') in ('&mut[u8]',)]
+            if any(derives_from_param(f, prov, buf, i) for i in bparams):
+                continue
+            n += 1
+            base = '%s:read-into-own-buffer' % f.key
+            cnt[base] = cnt.get(base, 0) + 1
+            key = base if cnt[base] == 1 else '%s#%d' % (base, cnt[base])
+            # an Interrupted test somewhere in the blocks reachable from the call inside its innermost loop
+            loops = [body for h, body in f.loops().items() if bi in body]
+            ok = False
+            if loops:
+                body = min(loops, key=len)
+                for sb in body:
+                    tt = f.blocks[sb]['term']
+                    if tt['k'] == 'switch':
+                        cond = prov.operand(tt['discr'], 0, '%d:T' % sb)
+                        if 'Interrupted' in expr_str(cond):
+                            ok = True
+            if ok:
+                ctx.ok(key, f.loc(bi), 'the call is re-issued when the source reports Interrupted')
+            else:
+                ctx.violation(key, f.loc(bi), 'a plain read into the decoder\'s own buffer propagates ErrorKind::Interrupted to the caller in the '
+                              'middle of a parsing step; the caller\'s retry (read_to_end, read_exact) resumes in a different state and '
+                              'a correct stream is reported as damaged')
+    if n == 0:
+        ctx.anchor_missing('plain reads into decoder-owned buffers')
